@@ -33,7 +33,7 @@ def run(c):
     if c.replay:
         for f in c.replay.get("failures", []):
             if f.get("input"):
-                lines.append((f["input"], "replay", {}))
+                lines.append((f["input"], "replay-fail", {}))
         for t in c.replay.get("broken_ties", []):
             lines.append((t["line"], "replay", {}))
     for name, ln in sorted(L.witness_lines(impl).items()):
@@ -46,6 +46,8 @@ def run(c):
     res = c.tie("verdict", [l for l, _, _ in lines], impl, model)
     for (l, kind, meta), (_, a, _) in zip(lines, res):
         c.count("kind:" + kind + ":" + a)
+        if kind == "replay-fail" and a != "rej":
+            c.oracle_fail(l, "replayed unsafe edit not rejected: verdict %s" % a, l)
         if kind == "witness" and a != "rej":
             c.oracle_fail(l, "unsafe edit not rejected (%s): verdict %s" % (meta["name"], a), l)
         if kind == "sample-rej" and a != "rej":
